@@ -4,5 +4,6 @@ VARIABLE rec
 (* recorded decode of hostile bytes by the implementation *)
 TraceWork == AcceptableWork(rec)
 TraceIsolated == AcceptableIsolation(rec)
+TraceScaling == AcceptableScaling(rec)
 Dummy == T = <<>> /\ le = TRUE /\ d = <<>>
 ====
